@@ -38,15 +38,13 @@ typedef signed char i8; typedef short i16; typedef int i32; typedef long long i6
 #define SGN_i64 1
 #define SGN_u64 0
 
-/* fixed bases of the 32/64-bit groups: cell index CC_BI (split=CC_BI:0:3) -> base; base 2 has its own groups (longer unwinding) */
-#ifdef CC_B   /* split=CC_B:2:36: digits of 2^16-1 in base CC_B */
-#define CC_D16 (CC_B == 2 ? 16 : (CC_B == 3 ? 11 : (CC_B == 4 ? 8 : (CC_B <= 6 ? 7 : (CC_B <= 9 ? 6 : (CC_B <= 15 ? 5 : 4))))))
-#endif
+/* fixed bases of the 32/64-bit groups: cell index CC_BI -> base 8, 16 (powers of two: cells 0:1), 10, 36 (cells 2:3);
+ * base 2 has its own groups (longer unwinding) */
 #ifdef CC_BI
-#define CC_BASE (CC_BI == 0 ? 8 : (CC_BI == 1 ? 10 : (CC_BI == 2 ? 16 : 36)))
+#define CC_BASE (CC_BI == 0 ? 8 : (CC_BI == 1 ? 16 : (CC_BI == 2 ? 10 : 36)))
 /* digits of 2^32-1 / 2^64-1 in that base */
-#define CC_D32 (CC_BI == 0 ? 11 : (CC_BI == 1 ? 10 : (CC_BI == 2 ? 8 : 7)))
-#define CC_D64 (CC_BI == 0 ? 22 : (CC_BI == 1 ? 20 : (CC_BI == 2 ? 16 : 13)))
+#define CC_D32 (CC_BI == 0 ? 11 : (CC_BI == 1 ? 8 : (CC_BI == 2 ? 10 : 7)))
+#define CC_D64 (CC_BI == 0 ? 22 : (CC_BI == 1 ? 16 : (CC_BI == 2 ? 20 : 13)))
 #endif
 
 /* ---- exact-size output buffer.  CBMC: malloc(L), an access outside [first,last) is a bounds failure.  Native replay: 16 guard
@@ -343,9 +341,30 @@ void h_roundtrip_i16(void) { const int base = CC_B; ROUNDTRIP_PRE(i16, 16);
 void h_roundtrip_u16(void) { const int base = CC_B; ROUNDTRIP_PRE(u16, 16); ROUNDTRIP_POST(u16, 16); }
 
 /* =========================================== 32 / 64 bit, base fixed per cell (thorough) ================================== */
-/* split=CC_BI:0:3 -> base 8, 10, 16, 36 (one K proof per (type, base) cell); base 2 in *_b2 groups (longest unwinding).
- * Symbolic-base division/multiplication relations at 32/64 bit are SAT-hard, a constant base is not. */
-/*@GROUP name=to_chars_i32 props=C10,C02 kind=K unwind=17 tier=thorough timeout=1200 split=CC_BI:0:3 qsplit=1 cost=6 solver=kissat@*/
+/* split=CC_BI:0:3 -> base 8, 16, 10, 36 (one K proof per (type, base) cell); base 2 in *_b2 groups (longest unwinding).
+ * Symbolic-base division/multiplication relations at 32/64 bit are SAT-hard, a constant base is not.  What does not finish in
+ * 20 minutes on the full domain (64-bit formatting in bases 10 and 36, the 64-bit C-string functions) is checked on a window
+ * and declared kind=B. */
+/*@COMMON@*/
+/* value window (kind=B): |v| < 2^16, or within 2^16 of numeric_limits max, or of numeric_limits min */
+#define WINDOW_VAL(T) VF_INPUT(u8, win); { const vf_i128 vv = (vf_i128)v;                                                \
+    __CPROVER_assume(win == 0 ? (vv > -65536 && vv < 65536) : (win == 1 ? vv > HI_##T - 65536 : vv < LO_##T + 65536)); }
+/* string windows (kind=B).  Measured: the cost of the string groups is dominated by the unwinding over the buffer length, a 64-bit
+ * C-string cell over the full digits+3 domain needs 15 - 20+ min.  So the 64-bit C-library / <string> functions are checked
+ * (a) on every string of length <= 8 (all byte values) and (b) on numerals next to the limits: no leading whitespace, optional
+ * sign, then the first digits-4 digits of numeric_limits max (of |min| behind '-'), then free bytes: limit, limit +- 1, one digit
+ * too many and every shorter tail are inside.  The 64-bit arithmetic core (strings::to_integer) has its full-domain K proofs in
+ * from_chars_i64 / from_chars_u64 / to_integer_u64. */
+static int s_numeral_w(vf_u128 x, int base, char *out) { char tmp[66]; int n = 0;
+  do { const int d = (int)(x % (vf_u128)base); tmp[n++] = (char)(d < 10 ? '0' + d : 'a' + d - 10); x /= (vf_u128)base; } while (x != 0);
+  for (int k = 0; k < n; ++k) out[k] = tmp[n - 1 - k]; return n; }
+#define NEAR_LIMIT_STR(T, MAXL) { char np[66], nm[66];                                                                    \
+      const int lp = s_numeral_w((vf_u128)(HI_##T), base, np); const int lm = s_numeral_w(SGN_##T ? (vf_u128)(-(LO_##T)) : (vf_u128)(HI_##T), base, nm); \
+      __CPROVER_assume(n >= 1); const _Bool m = s[0] == '-'; const int off = (s[0] == '-' || s[0] == '+') ? 1 : 0;        \
+      for (int k = 0; k < (MAXL); ++k) if (k < (m ? lm : lp) - 4) __CPROVER_assume(off + k < n && s[off + k] == (m ? nm[k] : np[k])); }
+
+/* ---- formatting ---- */
+/*@GROUP name=to_chars_i32 props=C10,C02 kind=K unwind=17 tier=thorough timeout=1200 split=CC_BI:0:3 cost=6 solver=kissat@*/
 void h_to_chars_i32(void) { const int base = CC_BASE; FMT_PRE(i32, 32, CC_D32, CC_D32 + 3);
   VF_KNOWN(C10_format_store_before_length_check, v != 0 && (L == 0 || (L == 1 && v < 0 && base == 10)));
   VF_KNOWN(C10_to_chars_exact_fit_rejected, v != 0 && L == n);
@@ -365,37 +384,47 @@ void h_to_chars_i32_b2(void) { const int base = 2; FMT_PRE(i32, 32, 32, 35);
   VF_KNOWN(C10_format_sign_only_base10, v < 0);
   TO_CHARS_POST(i32, 32, 32); }
 
-/*@GROUP name=to_chars_i64 props=C10,C02 kind=K unwind=28 tier=thorough timeout=1200 split=CC_BI:0:3 cost=9 solver=kissat@*/
+/* 64 bit: full domain for the power-of-two bases 8 and 16 (cells 0:1) */
+/*@GROUP name=to_chars_i64 props=C10,C02 kind=K unwind=28 tier=thorough timeout=1200 split=CC_BI:0:1 cost=9 solver=kissat@*/
 void h_to_chars_i64(void) { const int base = CC_BASE; FMT_PRE(i64, 64, CC_D64, CC_D64 + 3);
-  VF_KNOWN(C10_format_store_before_length_check, v != 0 && (L == 0 || (L == 1 && v < 0 && base == 10)));
+  VF_KNOWN(C10_format_store_before_length_check, v != 0 && L == 0);
   VF_KNOWN(C10_to_chars_exact_fit_rejected, v != 0 && L == n);
-  VF_KNOWN(C10_format_sign_only_base10, v < 0 && base != 10);
+  VF_KNOWN(C10_format_sign_only_base10, v < 0);
   TO_CHARS_POST(i64, 64, CC_D64); }
 
-/*@GROUP name=to_chars_u64 props=C10,C02 kind=K unwind=28 tier=thorough timeout=1200 split=CC_BI:0:3 cost=9 solver=kissat@*/
+/*@GROUP name=to_chars_u64 props=C10,C02 kind=K unwind=28 tier=thorough timeout=1200 split=CC_BI:0:1 cost=9 solver=kissat@*/
 void h_to_chars_u64(void) { const int base = CC_BASE; FMT_PRE(u64, 64, CC_D64, CC_D64 + 3);
   VF_KNOWN(C10_format_store_before_length_check, v != 0 && L == 0);
   VF_KNOWN(C10_to_chars_exact_fit_rejected, v != 0 && L == n);
   TO_CHARS_POST(u64, 64, CC_D64); }
 
-/*@GROUP name=to_chars_u64_b2 props=C10,C02 kind=K unwind=70 tier=thorough timeout=1200 cost=9 solver=kissat@*/
-void h_to_chars_u64_b2(void) { const int base = 2; FMT_PRE(u64, 64, 64, 67);
+/* 64 bit, bases 10 and 36 (cells 2:3): the full domain does not finish in 20 min -> value window */
+/*@GROUP name=to_chars_i64_win props=C10,C02 kind=B bound=|v|<2^16_or_within_2^16_of_min/max unwind=28 tier=thorough timeout=1200 split=CC_BI:2:3 cost=5 solver=kissat@*/
+void h_to_chars_i64_win(void) { const int base = CC_BASE; FMT_PRE(i64, 64, CC_D64, CC_D64 + 3); WINDOW_VAL(i64);
+  VF_KNOWN(C10_format_store_before_length_check, v != 0 && (L == 0 || (L == 1 && v < 0 && base == 10)));
+  VF_KNOWN(C10_to_chars_exact_fit_rejected, v != 0 && L == n);
+  VF_KNOWN(C10_format_sign_only_base10, v < 0 && base != 10);
+  TO_CHARS_POST(i64, 64, CC_D64); }
+
+/*@GROUP name=to_chars_u64_win props=C10,C02 kind=B bound=v<2^16_or_within_2^16_of_max unwind=28 tier=thorough timeout=1200 split=CC_BI:2:3 cost=5 solver=kissat@*/
+void h_to_chars_u64_win(void) { const int base = CC_BASE; FMT_PRE(u64, 64, CC_D64, CC_D64 + 3); WINDOW_VAL(u64);
   VF_KNOWN(C10_format_store_before_length_check, v != 0 && L == 0);
   VF_KNOWN(C10_to_chars_exact_fit_rejected, v != 0 && L == n);
-  TO_CHARS_POST(u64, 64, 64); }
+  TO_CHARS_POST(u64, 64, CC_D64); }
 
 /*@GROUP name=to_string_int props=C10,C02,C05 kind=K unwind=14 tier=thorough timeout=1200 cost=6 solver=kissat@*/
 void h_to_string_int(void) { const int base = 10; VF_INPUT_BOOL(uns);
   if (uns) { FMT_VAL(u32, 32, 10); TO_STRING_POST(to_string_12_uint, u32, 32, 10, 12); }
   else { FMT_VAL(i32, 32, 10); TO_STRING_POST(to_string_12_int, i32, 32, 10, 12); } }
 
-/*@GROUP name=to_string_ll props=C10,C02,C05 kind=K unwind=24 tier=thorough timeout=1200 cost=9 solver=kissat@*/
-void h_to_string_ll(void) { const int base = 10; VF_INPUT(u8, which);
-  if (which == 0) { FMT_VAL(u64, 64, 20); TO_STRING_POST(to_string_21_ull, u64, 64, 20, 21); }
-  else if (which == 1) { FMT_VAL(i64, 64, 20); TO_STRING_POST(to_string_21_ll, i64, 64, 20, 21); }
-  else if (which == 2) { FMT_VAL(u64, 64, 20); TO_STRING_POST(to_string_21_ulong, u64, 64, 20, 21); }
-  else { FMT_VAL(i64, 64, 20); TO_STRING_POST(to_string_21_long, i64, 64, 20, 21); } }
+/*@GROUP name=to_string_ll_win props=C10,C02,C05 kind=B bound=|v|<2^16_or_within_2^16_of_min/max unwind=24 tier=thorough timeout=1200 cost=5 solver=kissat@*/
+void h_to_string_ll_win(void) { const int base = 10; VF_INPUT(u8, which);
+  if (which == 0) { FMT_VAL(u64, 64, 20); WINDOW_VAL(u64); TO_STRING_POST(to_string_21_ull, u64, 64, 20, 21); }
+  else if (which == 1) { FMT_VAL(i64, 64, 20); WINDOW_VAL(i64); TO_STRING_POST(to_string_21_ll, i64, 64, 20, 21); }
+  else if (which == 2) { FMT_VAL(u64, 64, 20); WINDOW_VAL(u64); TO_STRING_POST(to_string_21_ulong, u64, 64, 20, 21); }
+  else { FMT_VAL(i64, 64, 20); WINDOW_VAL(i64); TO_STRING_POST(to_string_21_long, i64, 64, 20, 21); } }
 
+/* ---- parsing: from_chars / to_integer on the full domain ---- */
 /*@GROUP name=from_chars_i32 props=C10,C02 kind=K unwind=17 tier=thorough timeout=1200 split=CC_BI:0:3 cost=6 solver=kissat@*/
 void h_from_chars_i32(void) { const int base = CC_BASE; RANGE_IN(CC_D32 + 3); FROM_CHARS_PRE(i32, 32, CC_D32 + 3);
   VF_KNOWN(C10_from_chars_out_of_range_ptr, r.cls == 2);
@@ -411,17 +440,17 @@ void h_from_chars_i32_b2(void) { const int base = 2; RANGE_IN(35); FROM_CHARS_PR
   VF_KNOWN(C10_from_chars_out_of_range_ptr, r.cls == 2);
   FROM_CHARS_POST(i32); }
 
-/*@GROUP name=from_chars_i64 props=C10,C02 kind=K unwind=28 tier=thorough timeout=1200 split=CC_BI:0:3 cost=9 solver=kissat@*/
+/*@GROUP name=from_chars_i64 props=C10,C02 kind=K unwind=28 tier=thorough timeout=1500 split=CC_BI:0:3 cost=9 solver=kissat@*/
 void h_from_chars_i64(void) { const int base = CC_BASE; RANGE_IN(CC_D64 + 3); FROM_CHARS_PRE(i64, 64, CC_D64 + 3);
   VF_KNOWN(C10_from_chars_out_of_range_ptr, r.cls == 2);
   FROM_CHARS_POST(i64); }
 
-/*@GROUP name=from_chars_u64 props=C10,C02 kind=K unwind=28 tier=thorough timeout=1200 split=CC_BI:0:3 cost=9 solver=kissat@*/
+/*@GROUP name=from_chars_u64 props=C10,C02 kind=K unwind=28 tier=thorough timeout=1200 split=CC_BI:0:3 cost=6 solver=kissat@*/
 void h_from_chars_u64(void) { const int base = CC_BASE; RANGE_IN(CC_D64 + 3); FROM_CHARS_PRE(u64, 64, CC_D64 + 3);
   VF_KNOWN(C10_from_chars_out_of_range_ptr, r.cls == 2);
   FROM_CHARS_POST(u64); }
 
-/*@GROUP name=from_chars_u64_b2 props=C10,C02 kind=K unwind=70 tier=thorough timeout=1200 cost=9 solver=kissat@*/
+/*@GROUP name=from_chars_u64_b2 props=C10,C02 kind=K unwind=70 tier=thorough timeout=1200 cost=6 solver=kissat@*/
 void h_from_chars_u64_b2(void) { const int base = 2; RANGE_IN(67); FROM_CHARS_PRE(u64, 64, 67);
   VF_KNOWN(C10_from_chars_out_of_range_ptr, r.cls == 2);
   FROM_CHARS_POST(u64); }
@@ -433,35 +462,50 @@ void h_to_integer_i32(void) { const int base = CC_BASE; RANGE_IN(CC_D32 + 3); TO
 void h_to_integer_u64(void) { const int base = CC_BASE; RANGE_IN(CC_D64 + 3); TO_INTEGER_PRE(u64, 64, CC_D64 + 3); TO_INTEGER_POST(u64); }
 
 /* =========================================== C library and <string> families =========================================== */
-/* long == long long == 64 bit here.  Terminated exact-size strings; reference = C strtol grammar. */
-/*@GROUP name=strtol props=C10,C02 kind=K unwind=29 tier=thorough timeout=1200 split=CC_BI:0:3 qsplit=1 cost=9 solver=kissat@*/
-void h_strtol(void) { const int base = CC_BASE; VF_INPUT_BOOL(ll); CSTR_IN(CC_D64 + 3); STRTO_PRE(i64, CC_D64 + 3, 0);
-  VF_KNOWN(C10_parse_plus_sign_rejected, r.plus);
-  VF_KNOWN(C10_parse_hex_prefix_ignored, r.prefix);
-  VF_KNOWN(C10_strto_out_of_range_result, r.cls == 2);
-  if (ll) { STRTO_POST(c_strtoll, long long); } else { STRTO_POST(c_strtol, long); }
-  VF_REACH(); }
-
-/*@GROUP name=strtoul props=C10,C02 kind=K unwind=29 tier=thorough timeout=1200 split=CC_BI:0:3 cost=9 solver=kissat@*/
-void h_strtoul(void) { const int base = CC_BASE; VF_INPUT_BOOL(ll); CSTR_IN(CC_D64 + 3); STRTO_PRE(u64, CC_D64 + 3, 1);
-  VF_KNOWN(C10_parse_plus_sign_rejected, r.plus);
-  VF_KNOWN(C10_parse_hex_prefix_ignored, r.prefix);
-  VF_KNOWN(C10_parse_unsigned_minus_rejected, r.minus);
-  VF_KNOWN(C10_strto_out_of_range_result, r.cls == 2);
-  if (ll) { STRTO_POST(c_strtoull, unsigned long long); } else { STRTO_POST(c_strtoul, unsigned long); }
-  VF_REACH(); }
+/* long == long long == 64 bit here.  Terminated exact-size strings; reference = C strtol grammar (s_parse_w with every flag). */
+/*@COMMON@*/
+#define STRTO_ANY(fn) if (fn == 0) { STRTO_POST(c_strtol, long); } else if (fn == 1) { STRTO_POST(c_strtoll, long long); }  \
+    else if (fn == 2) { STRTO_POST(c_strtoul, unsigned long); } else { STRTO_POST(c_strtoull, unsigned long long); }
+#define STO_ANY(fn) if (fn == 0) STO_POST(s_stol, long) else if (fn == 1) STO_POST(s_stoll, long long)                     \
+    else if (fn == 2) STO_POST(s_stoul, unsigned long) else STO_POST(s_stoull, unsigned long long)
+#define REF64(uns, MAXL) ((uns) ? s_parse_w(s, n, base, F_WS | F_MINUS | F_PLUS | F_PREFIX, LO_u64, HI_u64, 1, 64, MAXL)    \
+                                : s_parse_w(s, n, base, F_WS | F_MINUS | F_PLUS | F_PREFIX, LO_i64, HI_i64, 0, 64, MAXL))
 
 /* base 0 (auto-detection: 0x -> 16, 0 -> 8, else 10) next to bases 10 and 16 on short strings: all four functions */
 /*@GROUP name=strto_short props=C10,C02 kind=B bound=strlen<=4,base_in_{0,10,16} unwind=8 solver=kissat@*/
 void h_strto_short(void) { VF_INPUT(u8, bsel); const int base = bsel == 0 ? 0 : (bsel == 1 ? 10 : 16); VF_INPUT(u8, fn); CSTR_IN(4); const _Bool uns = fn >= 2;
-  VF_INPUT_BOOL(want_end);
-  const ref_t r = uns ? s_parse_w(s, n, base, F_WS | F_MINUS | F_PLUS | F_PREFIX, LO_u64, HI_u64, 1, 64, 4) : s_parse_w(s, n, base, F_WS | F_MINUS | F_PLUS | F_PREFIX, LO_i64, HI_i64, 0, 64, 4);
+  VF_INPUT_BOOL(want_end); const ref_t r = REF64(uns, 4);
   VF_KNOWN(C10_strto_base0_division_by_zero, base == 0);
   VF_KNOWN(C10_parse_plus_sign_rejected, r.plus);
   VF_KNOWN(C10_parse_hex_prefix_ignored, r.prefix);
   VF_KNOWN(C10_parse_unsigned_minus_rejected, uns && r.minus);
-  if (fn == 0) { STRTO_POST(c_strtol, long); } else if (fn == 1) { STRTO_POST(c_strtoll, long long); }
-  else if (fn == 2) { STRTO_POST(c_strtoul, unsigned long); } else { STRTO_POST(c_strtoull, unsigned long long); }
+  STRTO_ANY(fn)
+  VF_REACH(); }
+
+/* every string of length <= 8 in bases 8, 16, 10, 36: strtol, strtoll, strtoul, strtoull */
+/*@GROUP name=strto_len8 props=C10,C02 kind=B bound=strlen<=8 unwind=12 tier=thorough timeout=1200 split=CC_BI:0:3 cost=4 solver=kissat@*/
+void h_strto_len8(void) { const int base = CC_BASE; VF_INPUT(u8, fn); CSTR_IN(8); const _Bool uns = fn >= 2;
+  VF_INPUT_BOOL(want_end); const ref_t r = REF64(uns, 8);
+  VF_KNOWN(C10_parse_plus_sign_rejected, r.plus);
+  VF_KNOWN(C10_parse_unsigned_minus_rejected, uns && r.minus);
+  __CPROVER_assume(!r.prefix);   /* base 16 cell: the optional 0x prefix is checked in strto_short / sto_len8 (known finding) */
+  STRTO_ANY(fn)
+  VF_REACH(); }
+
+/* numerals next to LONG_MIN / LONG_MAX / ULONG_MAX in bases 16 and 10 (cells 1:2): overflow exactly at the limits */
+/*@GROUP name=strtol_near props=C10,C02 kind=B bound=first_digits-4_digits_equal_LONG_MIN/MAX;no_whitespace unwind=29 tier=thorough timeout=1200 split=CC_BI:1:2 cost=7 solver=kissat@*/
+void h_strtol_near(void) { const int base = CC_BASE; VF_INPUT_BOOL(ll); CSTR_IN(CC_D64 + 3); NEAR_LIMIT_STR(i64, CC_D64 + 3); STRTO_PRE(i64, CC_D64 + 3, 0);
+  VF_KNOWN(C10_parse_plus_sign_rejected, r.plus);
+  VF_KNOWN(C10_strto_out_of_range_result, r.cls == 2);
+  if (ll) { STRTO_POST(c_strtoll, long long); } else { STRTO_POST(c_strtol, long); }
+  VF_REACH(); }
+
+/*@GROUP name=strtoul_near props=C10,C02 kind=B bound=first_digits-4_digits_equal_ULONG_MAX;no_whitespace unwind=29 tier=thorough timeout=1200 split=CC_BI:1:2 cost=7 solver=kissat@*/
+void h_strtoul_near(void) { const int base = CC_BASE; VF_INPUT_BOOL(ll); CSTR_IN(CC_D64 + 3); NEAR_LIMIT_STR(u64, CC_D64 + 3); STRTO_PRE(u64, CC_D64 + 3, 1);
+  VF_KNOWN(C10_parse_plus_sign_rejected, r.plus);
+  VF_KNOWN(C10_parse_unsigned_minus_rejected, r.minus);
+  VF_KNOWN(C10_strto_out_of_range_result, r.cls == 2);
+  if (ll) { STRTO_POST(c_strtoull, unsigned long long); } else { STRTO_POST(c_strtoul, unsigned long); }
   VF_REACH(); }
 
 /*@GROUP name=atoi props=C10,C02 kind=K unwind=17 cost=4 solver=kissat@*/
@@ -469,29 +513,39 @@ void h_atoi(void) { CSTR_IN(13); ATO_PRE(i32, 32, 13);
   VF_KNOWN(C10_parse_plus_sign_rejected, r.plus);
   ATO_POST(c_atoi, int); VF_REACH(); }
 
-/*@GROUP name=atol props=C10,C02 kind=K unwind=27 tier=thorough timeout=1200 cost=6 solver=kissat@*/
-void h_atol(void) { VF_INPUT_BOOL(ll); CSTR_IN(23); ATO_PRE(i64, 64, 23);
+/*@GROUP name=atol_len8 props=C10,C02 kind=B bound=strlen<=8 unwind=12 tier=thorough timeout=1200 cost=3 solver=kissat@*/
+void h_atol_len8(void) { VF_INPUT_BOOL(ll); CSTR_IN(8); ATO_PRE(i64, 64, 8);
   VF_KNOWN(C10_parse_plus_sign_rejected, r.plus);
   if (ll) ATO_POST(c_atoll, long long) else ATO_POST(c_atol, long)
   VF_REACH(); }
 
-/*@GROUP name=stoi props=C10,C02 kind=K unwind=17 tier=thorough timeout=1200 split=CC_BI:0:3 qsplit=1 cost=6 solver=kissat@*/
-void h_stoi(void) { const int base = CC_BASE; RANGE_IN(CC_D32 + 3); STO_PRE(i32, 32, CC_D32 + 3, 0);
+/*@GROUP name=atol_near props=C10,C02 kind=B bound=first_15_digits_equal_LONG_MIN/MAX;no_whitespace unwind=27 tier=thorough timeout=1200 cost=7 solver=kissat@*/
+void h_atol_near(void) { const int base = 10; VF_INPUT_BOOL(ll); CSTR_IN(23); NEAR_LIMIT_STR(i64, 23); ATO_PRE(i64, 64, 23);
   VF_KNOWN(C10_parse_plus_sign_rejected, r.plus);
-  VF_KNOWN(C10_parse_hex_prefix_ignored, r.prefix);
-  STO_POST(s_stoi, int) VF_REACH(); }
-
-/*@GROUP name=stol props=C10,C02 kind=K unwind=28 tier=thorough timeout=1200 split=CC_BI:0:3 cost=9 solver=kissat@*/
-void h_stol(void) { const int base = CC_BASE; VF_INPUT_BOOL(ll); RANGE_IN(CC_D64 + 3); STO_PRE(i64, 64, CC_D64 + 3, 0);
-  VF_KNOWN(C10_parse_plus_sign_rejected, r.plus);
-  VF_KNOWN(C10_parse_hex_prefix_ignored, r.prefix);
-  if (ll) STO_POST(s_stoll, long long) else STO_POST(s_stol, long)
+  if (ll) ATO_POST(c_atoll, long long) else ATO_POST(c_atol, long)
   VF_REACH(); }
 
-/*@GROUP name=stoul props=C10,C02 kind=K unwind=28 tier=thorough timeout=1200 split=CC_BI:0:3 cost=9 solver=kissat@*/
-void h_stoul(void) { const int base = CC_BASE; VF_INPUT_BOOL(ll); RANGE_IN(CC_D64 + 3); STO_PRE(u64, 64, CC_D64 + 3, 1);
+/*@GROUP name=stoi props=C10,C02 kind=K unwind=17 tier=thorough timeout=1200 split=CC_BI:0:3 cost=6 solver=kissat@*/
+void h_stoi(void) { const int base = CC_BASE; RANGE_IN(CC_D32 + 3); STO_PRE(i32, 32, CC_D32 + 3, 0);
   VF_KNOWN(C10_parse_plus_sign_rejected, r.plus);
-  VF_KNOWN(C10_parse_hex_prefix_ignored, r.prefix);
-  VF_KNOWN(C10_parse_unsigned_minus_rejected, r.minus);
-  if (ll) STO_POST(s_stoull, unsigned long long) else STO_POST(s_stoul, unsigned long)
+  VF_KNOWN(C10_parse_hex_prefix_ignored, r.prefix);   /* feasible in the base 16 cell only */
+  STO_POST(s_stoi, int) VF_REACH(); }
+
+/* stol, stoll, stoul, stoull on every range of length <= 8 (0x prefix included: known finding in the base 16 cell) */
+/*@GROUP name=sto_len8 props=C10,C02 kind=B bound=len<=8 unwind=12 tier=thorough timeout=1200 split=CC_BI:0:3 cost=4 solver=kissat@*/
+void h_sto_len8(void) { const int base = CC_BASE; VF_INPUT(u8, fn); RANGE_IN(8); const _Bool uns = fn >= 2;
+  VF_INPUT_BOOL(want_pos); const ref_t r = REF64(uns, 8);
+  VF_KNOWN(C10_parse_plus_sign_rejected, r.plus);
+  VF_KNOWN(C10_parse_hex_prefix_ignored, r.prefix);   /* feasible in the base 16 cell only */
+  VF_KNOWN(C10_parse_unsigned_minus_rejected, uns && r.minus);
+  STO_ANY(fn)
+  VF_REACH(); }
+
+/*@GROUP name=sto_near props=C10,C02 kind=B bound=first_digits-4_digits_equal_LONG_MIN/MAX_or_ULONG_MAX;no_whitespace;base_10 unwind=28 tier=thorough timeout=1200 split=CC_BI:2:2 cost=7 solver=kissat@*/
+void h_sto_near(void) { const int base = CC_BASE; VF_INPUT(u8, fn); RANGE_IN(CC_D64 + 3); const _Bool uns = fn >= 2; VF_INPUT_BOOL(want_pos);
+  if (uns) NEAR_LIMIT_STR(u64, CC_D64 + 3) else NEAR_LIMIT_STR(i64, CC_D64 + 3)
+  const ref_t r = REF64(uns, CC_D64 + 3);
+  VF_KNOWN(C10_parse_plus_sign_rejected, r.plus);
+  VF_KNOWN(C10_parse_unsigned_minus_rejected, uns && r.minus);
+  STO_ANY(fn)
   VF_REACH(); }
